@@ -346,8 +346,14 @@ impl FailSafe {
         Ok(())
     }
 
-    pub fn disarm<'a>(
-        &mut self,
+    /// Run the checks of `disarm` without disarming, and return the fabric that
+    /// `disarm` is going to commit.
+    ///
+    /// `CommissioningComplete` uses this to persist the fabric _before_ the fail-safe
+    /// is disarmed: if the store fails, the fail-safe has to stay armed, so that the
+    /// commissioner can retry, or else the expiry undoes what was done under it.
+    pub fn check_disarm<'a>(
+        &self,
         session_mode: &SessionMode,
         fabrics: &'a mut Fabrics,
     ) -> Result<&'a mut Fabric, Error> {
@@ -366,7 +372,15 @@ impl FailSafe {
             NocFlags::empty(),
         )?;
 
-        let fabric = fabrics.fabric_mut(fab_idx)?;
+        fabrics.fabric_mut(fab_idx)
+    }
+
+    pub fn disarm<'a>(
+        &mut self,
+        session_mode: &SessionMode,
+        fabrics: &'a mut Fabrics,
+    ) -> Result<&'a mut Fabric, Error> {
+        let fabric = self.check_disarm(session_mode, fabrics)?;
 
         self.state = State::Idle;
         self.breadcrumb = 0;
